@@ -8,3 +8,5 @@ import Theorems.C11
 #print axioms C11.rank_is_permutation
 #print axioms C11.info_set_card
 #print axioms C11.info_mask_length
+#print axioms C11.interleaved_is_bitreversal
+#print axioms C11.sc_decodes_clean_interleaved
